@@ -154,6 +154,24 @@ def regimes(rep, pid, cases, label):
             report("two calls of the same size on non-leaf inputs in one graph, one backward")
         if not all(torch.equal(p, q) for p, q in zip(keep, cots[0])):
             rep.violation("%s: back-propagation modified the cotangent tensors it was handed" % name, dict(case, regime="cotangent mutated"))
+        # (s) two layers STACKED (the output of one is the input of the next, one backward through both) against the chain rule
+        # evaluated with one graph per layer
+        if other is not None and len(case_) > 4 and case_[4] == "stackable":
+            rep.validated()
+            rep.nontriv(("regime", name, "stacked"))
+            n += 1
+            l2 = other()
+            x0 = args[0].detach().clone().requires_grad_(True)
+            mid = mod(x0)
+            top = l2(mid)
+            ct = torch.tensor(rng.standard_normal(tuple(top.shape)))
+            g_stack, = torch.autograd.grad(top, x0, ct)
+            m_leaf = mid.detach().clone().requires_grad_(True)
+            g_mid, = torch.autograd.grad(l2(m_leaf), m_leaf, ct)
+            x1 = args[0].detach().clone().requires_grad_(True)
+            g_chain, = torch.autograd.grad(mod(x1), x1, g_mid)
+            if not _close(g_stack, g_chain):
+                report("two layers stacked in one graph (one backward through both) vs the chain rule with one graph per layer")
         # (c) only a subset of the outputs is used: a missing gradient must act like a zero gradient
         if len(cots[0]) >= 2:
             for keep_idx in ([0], [len(cots[0]) - 1], list(range(1, len(cots[0])))):
@@ -228,7 +246,105 @@ def scat_cases():
     dwtlib.f64()
     rng = np.random.default_rng(73000 + seed())
     t = lambda *s: torch.tensor(rng.standard_normal(s))   # noqa
-    return [("ScatLayer()", lambda: pw.ScatLayer(), [t(1, 2, 8, 12), t(1, 2, 7, 9)], lambda: pw.ScatLayer(biort="near_sym_b", magbias=0.3)),
+    return [("ScatLayer()", lambda: pw.ScatLayer(), [t(1, 2, 8, 12), t(1, 2, 7, 9)], lambda: pw.ScatLayer(biort="near_sym_b", magbias=0.3), "stackable"),
+            ("ScatLayer(near_sym_b_bp)", lambda: pw.ScatLayer(biort="near_sym_b_bp"), [t(2, 1, 12, 8), t(1, 2, 6, 10)], lambda: pw.ScatLayer(magbias=0.5), "stackable"),
             ("ScatLayer(near_sym_b_bp,colour)", lambda: pw.ScatLayer(biort="near_sym_b_bp", combine_colour=True), [t(1, 3, 8, 8), t(2, 3, 6, 10)]),
             ("ScatLayerj2()", lambda: pw.ScatLayerj2(), [t(1, 2, 16, 8), t(1, 1, 12, 10)], lambda: pw.ScatLayerj2(biort="near_sym_b", qshift="qshift_c")),
             ("ScatLayerj2(near_sym_b_bp)", lambda: pw.ScatLayerj2(biort="near_sym_b_bp", qshift="qshift_b_bp"), [t(1, 2, 8, 16), t(1, 2, 16, 16)])]
+
+
+# ------------------------------------------------------------------------------------------------------------------
+# TLC-generated tape behaviours (spec/Tape.tla) replayed into the real modules
+# ------------------------------------------------------------------------------------------------------------------
+def tape_histories(rep, tier, label="Tape"):
+    """-> list of histories (lists of forward / backward events).  The exhaustive run checks TapeOwn / ResultOwn on every
+    behaviour up to the depth; the histories to replay come from the same run (quick) or from a deeper simulation (thorough)."""
+    import os
+    from . import tlc
+    from .common import scratch, NCPU
+    from .dwtmodel import design_check
+    c = dict(Calls={1, 2, 3}, Mods={"A", "A2", "B"}, Args={1, 2}, Cots={1, 2}, Depth=4, StashOnModule=False, SharedResult=False)
+    res = tlc.run_model("Tape", c, invariants=["EmitHist", "TapeOwn", "ResultOwn"], shards=1, tag=label, timeout=900, workers=NCPU, coverage=False)
+    rep.add_tlc(res, label + " (exhaustive, depth 4)")
+    design_check(rep, res, label)
+    hs = [r["hist"] for r in res.records if r.get("kind") == "tape.history"]
+    if tier != "quick":
+        cfg = os.path.join(scratch(), "tape-sim.cfg")
+        tlc.write_cfg(cfg, dict(c, Depth=6), ["EmitHist", "TapeOwn", "ResultOwn"])
+        sim = tlc.run_one("Tape", cfg, 1, "Tape.sim", coverage=False, simulate="num=1500", extra_args=["-depth", "8", "-seed", str(11 + seed())], timeout=900)
+        rep.add_tlc(sim, label + " (-simulate, depth 6)")
+        hs += [r["hist"] for r in sim.records if r.get("kind") == "tape.history"]
+    # distinct behaviours with at least two forward calls before some backward, or a call differentiated twice - the others
+    # are the one-call-per-graph situation the VJP layers decide
+    uniq, seen = [], set()
+    for h in hs:
+        key = repr(h)
+        if key in seen:
+            continue
+        seen.add(key)
+        fwd_open = 0
+        interesting = False
+        nb = {}
+        for e in h:
+            if e["a"] == "forward":
+                fwd_open += 1
+            else:
+                nb[e["c"]] = nb.get(e["c"], 0) + 1
+                if fwd_open >= 2 or nb[e["c"]] >= 2:
+                    interesting = True
+        if interesting:
+            uniq.append(h)
+    return uniq
+
+
+def tape_replay(rep, pid, cases, histories, per_case):
+    """replay `per_case` of the histories (a deterministic spread) into every case (name, make, [arg1, arg2], other, ...)"""
+    rng = np.random.default_rng(74000 + seed())
+    dwtlib.f64()
+    n = 0
+    for ci, case_ in enumerate(cases):
+        name, make, args = case_[:3]
+        other = case_[3] if len(case_) > 3 and case_[3] is not None else make
+        objs = {"A": make(), "A2": make(), "B": other()}
+        cots, ref = {}, {}
+        for x in (1, 2):
+            with torch.no_grad():
+                outs = _flat(objs["A"](args[x - 1]))
+            for k in (1, 2):
+                cots[(x, k)] = [torch.tensor(rng.standard_normal(tuple(o.shape))) for o in outs]
+        for m in objs:
+            for x in (1, 2):
+                for k in (1, 2):
+                    ref[(m, x, k)] = _grads(objs[m], args[x - 1], cots[(x, k)])          # one call per graph
+        step = max(1, len(histories) // per_case)
+        for h in histories[ci % step::step][:per_case]:
+            live, held, bad = {}, [], None
+            rep.validated()
+            n += 1
+            try:
+                for e in h:
+                    if e["a"] == "forward":
+                        s_, l_ = _leafify(args[e["x"] - 1])
+                        live[e["c"]] = (_flat(objs[e["m"]](s_)), l_, e["m"], e["x"])
+                    else:
+                        outs, leaves, m, x = live[e["c"]]
+                        g = torch.autograd.grad(outs, leaves, cots[(x, e["k"])], retain_graph=bool(e["retain"]), allow_unused=True)
+                        held.append((g, ref[(m, x, e["k"])], e))
+                        if not all(_close(p, q) for p, q in zip(g, ref[(m, x, e["k"])])):
+                            bad = "the backward of call %d (event %r)" % (e["c"], e)
+                            break
+                if bad is None:
+                    for g, r_, e in held:               # HeldStable: gradients handed out earlier are re-read at the end
+                        if not all(_close(p, q) for p, q in zip(g, r_)):
+                            bad = "a gradient handed out earlier (event %r) changed afterwards" % (e,)
+                            break
+            except Exception as ex:   # noqa
+                bad = "raised %r" % ex
+            if bad:
+                rep.violation("%s: a TLC-generated sequence of forward / backward events (spec/Tape.tla) is not reproduced by the real module - %s: "
+                              "the gradient differs from the one obtained with one call per graph" % (name, bad),
+                              {"api": name, "check": "tape_replay", "history": h})
+            if n == 1 and not bad:
+                rep.sample({"tape_history": h, "module": name, "observed": "every gradient equals its one-call-per-graph reference; held gradients unchanged"})
+    rep.nontriv(("tape_replay", pid, n))
+    rep.count("tape_behaviours_replayed", n)
